@@ -39,3 +39,9 @@ VARIANTS += [
                                                      "                    lo = self.calc_min(fieldname)\n                    hi = self.calc_max(fieldname)\n                    m, M = lo, hi\n                    if not self.is_null(lo):\n                        min_constraint = MinConstraint(lo)\n                    if not self.is_null(hi):\n                        max_constraint = MaxConstraint(hi)")],
       kind='refactor'),
 ]
+
+RX = 'tdda/rexpy/rexpy.py'
+VARIANTS += [
+    M('C01', 'rex-digit-class-too-wide', E(RX, "        if c.isdecimal():\n            return cats.Digit.code", "        if c.isdigit():\n            return cats.Digit.code"), rule='C01-REX-CLASS', key='fine_class:Digit'),
+    M('C01', 'fuzzy-comparator-loses-exact-disjunct', E(BS, "    return (a >= b) or (a >= fuzz_down(b, epsilon))", "    return a >= fuzz_down(b, epsilon)"), rule='C01-CLOSE', key='fuzzy_greater_than'),
+]
